@@ -924,7 +924,7 @@ def run(ctx):
         for n, t in enumerate(trip[:8]):
             t = list(t)
             rng.shuffle(t)
-            lineups.append(([entry(x) for x in t], 4 if n < 2 else 3))
+            lineups.append(([entry(x) for x in t], 4 if n < 1 else 3))
         for x in names:  # every class twice: different parameters / equal parameters
             y = rng.choice([z for z in names if z != x])
             lineups.append(([entry(x, k=0), entry(y), entry(x, k=1)], 3))
